@@ -221,6 +221,7 @@ type Value struct {
 	Clo    *Closure  // non-nil for closures known statically
 	SpecSl bool      // spec-level slice: L = [contents (Array Int X), off, len]
 	Nil    bool      // the literal nil in a specification
+	Guard  *guardSrc // the value was loaded from a lock-guarded field (maps: contents need the lock)
 }
 
 // refMarker tags leaves that hold heap references (see registerRefLeaves).
